@@ -39,17 +39,19 @@ theorem usable_after {s : St} (h : Own s) (k : Nat) (op : Op) (hist : List (Opti
   ⟨h1, h1.lenCovers, h1.nobad⟩
 
 /-- The operations named in the property (resize, extend_from_within, extend, insert, truncate,
-a drain's drop, clone / from_slice_clone) on both vector kinds, for every fault position: the
+a drain's drop — after any script of pulls `next`/`next_back`/`nth`/`nth_back` and any way of
+consuming the drain: `last`, `count`, `fold`, `rfold`, plain drop, `mem::forget` —, clone /
+from_slice_clone) on both vector kinds, for every fault position: the
 vector's length never covers an uninitialised slot afterwards. -/
 theorem len_covers_init_named {s : St} (h : Own s) (k : Nat) (n a b : Nat)
-    (script : List IStep) :
+    (script : List IStep) (fin : IFin) :
     LenCoversInit (step (some k) (.resize n) s).2 ∧
     LenCoversInit (step (some k) (.extWithin a b) s).2 ∧
     LenCoversInit (step (some k) (.extIter a n) s).2 ∧
     LenCoversInit (step (some k) (.extSlice n) s).2 ∧
     LenCoversInit (step (some k) (.insert a) s).2 ∧
     LenCoversInit (step (some k) (.truncate n) s).2 ∧
-    LenCoversInit (step (some k) (.drain a b script .drop) s).2 ∧
+    LenCoversInit (step (some k) (.drain a b script fin) s).2 ∧
     LenCoversInit (step (some k) .clone s).2 :=
   ⟨(panic_safe h k _).2, (panic_safe h k _).2, (panic_safe h k _).2, (panic_safe h k _).2,
     (panic_safe h k _).2, (panic_safe h k _).2, (panic_safe h k _).2, (panic_safe h k _).2⟩
@@ -87,6 +89,47 @@ example :
     (step (some 0) (.drain 1 3 [] .drop) s).1 = .panic ∧
       (step (some 0) (.drain 1 3 [] .drop) s).2.v.len = 1 ∧
       (step (some 0) (.drain 1 3 [] .drop) s).2.mem.trace.take 2 = [.drop 2, .drop 1] := by decide
+
+/-! ### The iterator's provided methods (std defaults over `next` / `next_back`) -/
+
+/-- `drain(0..3).nth(1)` whose first skipped item's destructor panics: the cursor has already
+passed that item, so `Drain::drop` (run by the unwinding) drops the other two exactly once and
+moves the tail back.  (An `nth` override that drops the skipped items in place before advancing
+the cursor — seeded mutation C15r3-m2 — drops the first one twice here.) -/
+example :
+    let s := run [(none, .push), (none, .push), (none, .push), (none, .push)] (initInline 4)
+    (step (some 0) (.drain 0 3 [.nth 1] .drop) s).1 = .panic ∧
+      (step (some 0) (.drain 0 3 [.nth 1] .drop) s).2.v.len = 1 ∧
+      (step (some 0) (.drain 0 3 [.nth 1] .drop) s).2.v.get 0 = .init 3 ∧
+      (step (some 0) (.drain 0 3 [.nth 1] .drop) s).2.mem.trace.take 3 =
+        [.drop 2, .drop 1, .drop 0] := by decide
+
+/-- `drain(0..3).fold(..)` whose closure panics at its second call: the first item was kept by the
+closure, the second — moved out already — is dropped by the unwinding, the third by `Drain::drop`.
+(A `fold` override that advances the range only at the end — C15r3-m1 — drops the second twice.) -/
+example :
+    let s := run [(none, .push), (none, .push), (none, .push), (none, .push)] (initInline 4)
+    (step (some 1) (.drain 0 3 [] .fold) s).1 = .panic ∧
+      (step (some 1) (.drain 0 3 [] .fold) s).2.v.len = 1 ∧
+      (step (some 1) (.drain 0 3 [] .fold) s).2.mem.trace.take 3 =
+        [.drop 2, .drop 1, .ret 0] := by decide
+
+/-- `into_iter().last()` whose first accumulator's destructor panics: the new accumulator is
+leaked (not dropped twice), `IntoIter::drop` releases the rest; `rfold` runs from the back -/
+example :
+    let s := run [(none, .push), (none, .push), (none, .push)] (initInline 3)
+    (step (some 0) (.intoIter [] .last) s).1 = .panic ∧
+      (step (some 0) (.intoIter [] .last) s).2.mem.trace.take 2 = [.drop 2, .drop 0] ∧
+      (step none (.intoIter [.nthBack 0] .last) s).2.mem.trace.take 3 =
+        [.ret 1, .drop 0, .ret 2] ∧
+      (step (some 1) (.intoIter [] .rfold) s).2.mem.trace.take 3 =
+        [.drop 0, .drop 1, .ret 2] ∧
+      (step none (.intoIter [.front] .count) s).2.mem.trace.take 3 =
+        [.drop 2, .drop 1, .ret 0] := by decide
+
+example : Own (step (some 0) (.intoIter [] .last)
+    (run [(none, .push), (none, .push), (none, .push)] (initInline 3))).2 :=
+  (panic_safe (run_own _ _ (own_initInline 3)) 0 _).1
 
 /-- two more operations and the final drop after a fault: nothing is dropped twice -/
 example :
